@@ -21,7 +21,6 @@ abbrev S : Schema := C09.schema
 /-- Side condition on the regenerated facts (decidable). -/
 def FactsOK : Bool :=
   C09.schema == contentOnly [2] &&
-  C09.linkCond == "(rel != dest || !filepath.IsAbs(dest)) && !filepath.IsAbs(path)" &&
   C09.hashRelativisesPath && C09.ensureRelativeShape == "hasprefix-trimprefix-trimleft-slash" &&
   C09.fileHashWholeFile && !C09.walkUnsorted && !C09.walkFollowsSymlinks
 
@@ -31,7 +30,7 @@ theorem C09_facts_ok : FactsOK = true := by decide
 theorem schema_eq : C09.schema = contentOnly [2] := by
   have h := C09_facts_ok
   simp only [FactsOK, Bool.and_eq_true, beq_iff_eq] at h
-  exact h.1.1.1.1.1.1
+  exact h.1.1.1.1.1
 
 /-- Top-level symlinks point into the repo (the branch that hashes the destination's name). -/
 def Managed (root path : Bytes) (t : Tree) : Prop := managed root (ensureRelative root path) t = true
